@@ -49,7 +49,8 @@ class Ctx(object):
         self.repo = Repo(repo_root)
         self.contracts = all_contracts()
         self.timeout = 60 if tier == "quick" else 240
-        self.outdir = os.path.join(VERIF, "out", prop if repo_root == "/repo" else prop + "-scratch")
+        self.outdir = os.path.join(VERIF, "out", prop if repo_root == "/repo" else "%s-scratch-%s" % (
+            prop, re.sub(r"[^A-Za-z0-9]+", "", os.path.basename(os.path.normpath(repo_root)))[-12:]))
         shutil.rmtree(self.outdir, ignore_errors=True)   # replay files of earlier runs are not this run's
         os.makedirs(self.outdir, exist_ok=True)
         self.workdir = tempfile.mkdtemp(prefix="pyvc-%s-" % prop)
